@@ -150,14 +150,16 @@ def decode_time(seconds_since_midnight: int | float | None) -> time | None:
 
     return time(hour=hours, minute=minutes, second=seconds)
 
-def encode_time(time: time | None, bit_length: int) -> int:
+def encode_time(time: time | None, bit_length: int, signed: bool = False) -> int:
     """
     Encodes a time object into an integer representing the number of seconds since midnight.
     Returns:
         int: The number of seconds since midnight.
     """
     if time is None:
-        # Set to "not available" value
+        # Set to "not available" value (the maximum positive value for signed fields)
+        if signed:
+            return (1 << (bit_length - 1)) - 1
         return (1 << bit_length) - 1
 
     # Calculate the number of seconds since midnight
